@@ -17,6 +17,9 @@ pub fn codec_block(out: &mut String, b: &str) {
     writeln!(out, "ser {}", b).unwrap();
     writeln!(out, "ser_size {}", b).unwrap();
     writeln!(out, "spec_encode {}", b).unwrap();
+    // the same bytes through a sink that accepts them in small pieces (and interrupts): what is written does not depend on
+    // how the writer takes it
+    writeln!(out, "ser_fail {} limit:1000000000 mode:err sched:7,1,i,4096,3", b).unwrap();
     writeln!(out, "new b9").unwrap();
     writeln!(out, "deser_prefix chk b9 {} 100000000", b).unwrap();
     writeln!(out, "dump b9").unwrap();
@@ -35,12 +38,21 @@ pub fn gen_case(r: &mut Rng, out: &mut String) {
         codec_block(out, "b0");
         return;
     }
-    if r.chance(1, 4) {
+    if r.chance(1, 3) {
         // the value comes from ANY public producer (the twelve producers of the C04 profile: shuffled inserts, ranges, carving,
         // sorted appends incl. one refused at its very end, trims, set algebra in every form, multi-operand operations,
         // bit-slice import, decoding, clone_from): the bytes must be the standard encoding of its set whichever way it was made
         let t = super::c04::target(r);
-        let which = r.below(super::c04::N_PRODUCERS);
+        let mut which = r.below(super::c04::N_PRODUCERS);
+        // a chunk population next to the array limit: half of the time through set algebra (all six operand forms are
+        // computed and dumped - the dump includes the serialised bytes)
+        let mut per_chunk: std::collections::BTreeMap<u32, u64> = std::collections::BTreeMap::new();
+        for &(s, l) in &t {
+            *per_chunk.entry(s >> 16).or_insert(0) += l as u64;
+        }
+        if per_chunk.values().any(|&n| (4094..=4098).contains(&n)) && r.chance(1, 2) {
+            which = *r.pick(&[8u64, 8, 9]);
+        }
         super::c04::produce(r, out, "b0", &t, which);
         writeln!(out, "dump b0").unwrap();
         codec_block(out, "b0");
